@@ -10,13 +10,13 @@
 (*                                                                         *)
 (* Services: S singleton; A scoped, depends on B; B scoped; T transient;   *)
 (* all disposable.  Scopes: root, s1 (child of the provider), s2 (child of *)
-(* s1), and scopes created by the threads themselves.                      *)
+(* s1), s3 (child of s2), and scopes created by the threads themselves.    *)
 (***************************************************************************)
 EXTENDS Naturals, Sequences, FiniteSets, TLC
 
 CONSTANTS Threads,      \* user threads, e.g. {"t1", "t2"}
           Mixes,        \* set of [thread -> operation record [op, s, k]]: the programs explored
-          InitScopes,   \* subset of {"s1", "s2"}: scopes that exist (open) initially
+          InitScopes,   \* subset of {"s1", "s2", "s3"}: scopes that exist (open) initially (s2 child of s1, s3 child of s2)
           PreCached,    \* set of <<scope, key>> already resolved before the threads start
           NewCtxIndependent   \* TRUE: threads create scopes with a context of their own (not derived from the parent's)
 
@@ -26,7 +26,7 @@ Last(s) == s[Len(s)]
 Front(s) == SubSeq(s, 1, Len(s) - 1)
 
 NewScopeOf(t) == "n_" \o t
-AllScopes == {"root", "s1", "s2"} \cup {NewScopeOf(t) : t \in Threads}
+AllScopes == {"root", "s1", "s2", "s3"} \cup {NewScopeOf(t) : t \in Threads}
 Watchers == {"w:" \o s : s \in AllScopes \ {"root"}}
 ScopeOfWatcher(w) == CHOOSE s \in AllScopes : w = "w:" \o s
 Procs == Threads \cup Watchers
@@ -80,13 +80,13 @@ Return(p, err, val) ==
 Step(p, label) == hist' = Append(hist, <<p, label, "">>) /\ UNCHANGED ops
 \* snapshots iterate a Go map: any order is possible (all are explored); "fwd" marks insertion order, which is
 \* what the runtime produces most of the time for these small maps (used to pick the schedules worth replaying)
-Rank(s) == IF s = "s1" THEN 1 ELSE IF s = "s2" THEN 2 ELSE 3
+Rank(s) == IF s = "s1" THEN 1 ELSE IF s = "s2" THEN 2 ELSE IF s = "s3" THEN 3 ELSE 4
 Fwd(order) == \A i, j \in DOMAIN order : i < j => Rank(order[i]) <= Rank(order[j])
 StepOrd(p, label, order) == hist' = Append(hist, <<p, label, IF Fwd(order) THEN "fwd" ELSE "rev">>) /\ UNCHANGED ops
 
 \* the scopes whose context is cancelled when s's context is: s and every existing descendant
 \* (child scopes are created with the parent scope's context)
-CtxDerived(c) == c \in {"s1", "s2"} \/ ~NewCtxIndependent
+CtxDerived(c) == c \in {"s1", "s2", "s3"} \/ ~NewCtxIndependent
 RECURSIVE Desc(_, _)
 Desc(s, ex) == {s} \cup UNION {Desc(c, ex) : c \in {x \in ex : parent[x] = s /\ CtxDerived(x)}}
 
@@ -101,13 +101,14 @@ SingInst == [o |-> "prov", k |-> "S", n |-> 0]
 Init ==
     /\ ops \in Mixes
     /\ exists = [s \in AllScopes |-> s = "root" \/ s \in InitScopes]
-    /\ parent = [s \in AllScopes |-> IF s = "s2" THEN "s1" ELSE NONE]
+    /\ parent = [s \in AllScopes |-> IF s = "s2" THEN "s1" ELSE IF s = "s3" THEN "s2" ELSE NONE]
     /\ disposed = [s \in AllScopes |-> FALSE]
     /\ inst = [s \in AllScopes |-> Tab({Pre(s, k) : k \in {x \in {"A", "B"} : <<s, x>> \in PreCached}})]
     /\ creating = [s \in AllScopes |-> {}]
     /\ disp = [s \in AllScopes |-> PreSeq(s)]
     /\ drained = [s \in AllScopes |-> FALSE]
-    /\ children = [s \in AllScopes |-> Tab(IF s = "s1" /\ "s2" \in InitScopes THEN {"s2"} ELSE {})]
+    /\ children = [s \in AllScopes |-> Tab(IF s = "s1" /\ "s2" \in InitScopes THEN {"s2"}
+                                             ELSE IF s = "s2" /\ "s3" \in InitScopes THEN {"s3"} ELSE {})]
     /\ ctxDone = [s \in AllScopes |-> FALSE]
     /\ done = [s \in AllScopes |-> FALSE]
     /\ pdisposed = FALSE
